@@ -46,6 +46,9 @@ class Tok:
 Item = Any   # Tok | ('star', [Item]) | ('alt', test_src, [Item], [Item], ast.If)
 
 
+_READ_SIZES: Dict[int, Set[str]] = {}
+
+
 class DmxWire:
     """Token extraction for the binary reader / writer under a configuration (version, value type, array shape)."""
 
@@ -54,6 +57,11 @@ class DmxWire:
         self.env = self.ex.env
         self.raised: Optional[ast.AST] = None
         self.streams: Set[str] = {'file'}           # the stream parameter and local aliases of it (`file_, size_ = file, size`)
+        # locals used as the size argument of a read: `<stream>.read(<name>)`
+        if id(mod) not in _READ_SIZES:
+            _READ_SIZES[id(mod)] = {c.args[0].id for c in ast.walk(mod.tree) if isinstance(c, ast.Call) and isinstance(c.func, ast.Attribute) and c.func.attr == 'read' and len(c.args) == 1
+                                    and isinstance(c.args[0], ast.Name)}
+        self.read_sizes: Set[str] = _READ_SIZES[id(mod)]
 
     # -- helpers ----------------------------------------------------------------------------------------------------------
     def const_int(self, e: ast.AST) -> Optional[int]:
@@ -201,8 +209,8 @@ class DmxWire:
             for t, v in zip(tgt.elts, val.elts):
                 self.bind(t, v)
         elif isinstance(tgt, (ast.Tuple, ast.List)) and len(tgt.elts) == 1 and isinstance(tgt.elts[0], ast.Name) and isinstance(val, ast.Call) \
-                and dotted(val.func) == 'binformat.struct_read':
-            self.env[tgt.elts[0].id] = 'VAR'          # `[n] = struct_read(...)`: a length taken from the file (used as `file.read(n)`)
+                and dotted(val.func) == 'binformat.struct_read' and tgt.elts[0].id in self.read_sizes:
+            self.env[tgt.elts[0].id] = 'VAR'          # `[n] = struct_read(...)` where n is later the argument of `<stream>.read(n)`: a length taken from the file
 
     def stmt(self, st: ast.stmt) -> List[Item]:
         if isinstance(st, ast.If):
